@@ -3,7 +3,7 @@
 (* harness/inpkg/pubsub, TestVerifRecord) must be behaviours of PubSub.tla. One NDJSON line  *)
 (* per spec action with its arguments (a), what the engine emitted (out) and the projected   *)
 (* real state after the step (st); a line without st is a step whose post-state cannot be    *)
-(* observed (Sub1: the real call is parked right before remoteMu; Unsub1 of a call that      *)
+(* observed (Sub1: remoteMu .. AddTagsCtx is one piece of the real call; Unsub1 of a call that *)
 (* goes on to remove tags). The first line carries the constants; "reset" starts a new run.  *)
 (* All invariants and step properties of PubSub.tla are checked on the recorded steps.       *)
 EXTENDS PubSub, VerifEmit, PubSubTraceConsts
@@ -28,7 +28,8 @@ Do(a) ==
       [] a.act = "RemoveStream"  -> RemoveStream(a.s)
       [] a.act = "OnStreamClose" -> OnStreamClose(a.s)
       [] a.act = "SubReject"     -> SubReject(a.s, a.sp, a.f)
-      [] a.act = "Sub1"          -> Sub1(a.s, a.sp, a.f)
+      [] a.act = "SubCheck"      -> SubCheck(a.s, a.sp, a.f)
+      [] a.act = "Sub1"          -> Sub1(a.s)
       [] a.act = "Sub2"          -> Sub2
       [] a.act = "Unsub1"        -> Unsub1(a.s, a.sp, ToSet(a.P))
       [] a.act = "Unsub2"        -> Unsub2(a.s)
@@ -82,6 +83,7 @@ TrReset == IsLine("reset") /\
            /\ refs' = [sp \in GoodSpaces |-> [p \in PatU |-> 0]]
            /\ member' = InitMember
            /\ pend' = NoPend /\ busy' = [s \in Sids |-> "idle"] /\ pendU' = [s \in Sids |-> {}]
+           /\ chk' = [s \in Sids |-> NoChk] /\ evicted' = {}
            /\ late' = [s \in Sids |-> FALSE]
            /\ tokens' = [p \in Peers |-> Burst]
            /\ want' = [s \in Sids |-> {}]
